@@ -221,6 +221,13 @@ theorem mem_desc_additionalProperties {n : Node} {t : NodeId} (h : n.additionalP
   simp [descEdges, h]
 theorem mem_desc_propertyNames {n : Node} {t : NodeId} (h : n.propertyNames = some t) : t ∈ descEdges n := by
   simp [descEdges, h]
+/-- blanking the keywords of later drafts removes edges only -/
+theorem mem_desc_of_vocab {d : Draft} {n : Node} {t : NodeId} (h : t ∈ descEdges (Spec.vocab d n)) : t ∈ descEdges n := by
+  cases d
+  · simp only [descEdges, Spec.vocab, beq_d7_d7, if_true, Option.toList_none, List.append_nil] at h
+    simp only [descEdges, List.mem_append] at h ⊢
+    exact Or.inl (Or.inl h)
+  · exact h
 theorem mem_desc_unevaluatedItems {n : Node} {t : NodeId} (h : n.unevaluatedItems = some t) : t ∈ descEdges n := by
   simp [descEdges, h]
 theorem mem_desc_unevaluatedProperties {n : Node} {t : NodeId} (h : n.unevaluatedProperties = some t) :
@@ -535,7 +542,9 @@ theorem evalStep_isSome (env : VEnv) (srec : Spec.Rec) (scope0 : List NodeId) (s
     have h6 := kwNot_isSome (srec (scope0 ++ [s])) n j (fun t ht => hin t (mem_edges_not env s n hn ht))
     have h7 := kwIf_isSome (srec (scope0 ++ [s])) n j (fun t ht => hin t (mem_edges_if env s n hn ht))
     have h8 := kwItems_isSome (srec (scope0 ++ [s])) n j hch (specEnvOf env)
-    have h9 := kwContains_isSome (srec (scope0 ++ [s])) n j hch
+    have hch' : ∀ t, t ∈ descEdges (Spec.vocab (specEnvOf env).draft n) → ∀ x, Json.depth x < Json.depth j →
+        (srec (scope0 ++ [s]) t x).isSome = true := fun t ht => hch t (mem_desc_of_vocab ht)
+    have h9 := kwContains_isSome (srec (scope0 ++ [s])) (Spec.vocab (specEnvOf env).draft n) j hch'
     have h10 := kwProps_isSome (srec (scope0 ++ [s])) n j hch (specEnvOf env)
     have h11 := kwPropertyNames_isSome (srec (scope0 ++ [s])) n j hch
     have h12 := kwDependentSchemas_isSome (srec (scope0 ++ [s])) (specEnvOf env) n j
@@ -553,8 +562,8 @@ theorem evalStep_isSome (env : VEnv) (srec : Spec.Rec) (scope0 : List NodeId) (s
     obtain ⟨r11, h11⟩ := isSome_eq_some h11
     obtain ⟨r12, h12⟩ := isSome_eq_some h12
     rw [evalStep_defined (specEnvOf env) srec scope0 s j n hn' hnd7 h1 h2 h3 h4 h5 h6 h7 h8 h9 h10 h11 h12]
-    exact specTail_isSome _ _ _ _ (fun ev => kwUnevaluatedItems_isSome (srec (scope0 ++ [s])) n j hch ev)
-      (fun ev => kwUnevaluatedProps_isSome (srec (scope0 ++ [s])) n j hch ev)
+    exact specTail_isSome _ _ _ _ (fun ev => kwUnevaluatedItems_isSome (srec (scope0 ++ [s])) _ j hch' ev)
+      (fun ev => kwUnevaluatedProps_isSome (srec (scope0 ++ [s])) _ j hch' ev)
 
 /-! ### what the two decidable certificates say -/
 
